@@ -59,7 +59,7 @@ def reviewedWrites : List FieldWrite := [
   ⟨"StructType", "hashedMembers", "StructType.HashedMembers", .lazyFill⟩,
   ⟨"TypeAliasType", "resolvedType", "TypeAliasType.Resolve", .lazyFill⟩,
   ⟨"objectType", "initType", "objectType.createInitType", .lazyFill⟩,
-  ⟨"typedName", "canonical", "typedName.MapKey", .write⟩,
+  ⟨"typedName", "canonical", "typedName.MapKey", .lazyFill⟩,
   ⟨"typedName", "parts", "typedName.Parts", .lazyFill⟩,
   -- types: a parsed type expression is completed IN PLACE by `Resolve` (type references replaced by the types they name,
   -- an Object / TypeSet initialised from its init hash) before the loader hands it out — construction phase two of a type;
@@ -118,7 +118,7 @@ def reviewedWrites : List FieldWrite := [
   ⟨"typeSet", "name", "typeSet.InitFromHash", .write⟩,
   ⟨"typeSet", "nameAuthority", "NewTypeSet", .write⟩,
   ⟨"typeSet", "nameAuthority", "typeSet.InitFromHash", .write⟩,
-  ⟨"typeSet", "nameAuthority", "typeSet.Resolve", .write⟩,
+  ⟨"typeSet", "nameAuthority", "typeSet.Resolve", .lazyFill⟩,
   ⟨"typeSet", "pcoreURI", "typeSet.InitFromHash", .write⟩,
   ⟨"typeSet", "pcoreVersion", "typeSet.InitFromHash", .write⟩,
   ⟨"typeSet", "references", "typeSet.InitFromHash", .write⟩,
@@ -187,5 +187,39 @@ def SerFactsSafe (calls : List String) (writes : List (String × String)) : Prop
 
 instance (calls : List String) (writes : List (String × String)) : Decidable (SerFactsSafe calls writes) := by
   unfold SerFactsSafe; infer_instance
+
+/-! ### calls of the exported mutators from other packages (family mutatorcalls)
+
+Outside package `types` a value can be changed only by calling an exported method that assigns its fields.
+`Generated.mutatorNames` are those names (computed from family fieldwrites, closed under receiver calls), `mutatorCalls` every
+call of a method of such a name in any other package.  `MutatorCallsSafe`: every call is a reviewed one. -/
+
+def reviewedMutatorCalls : List (String × String × String) := [
+  -- hash.StringHash (a string-keyed ordered map of the Go API, not a px.Value): its own Put / PutAll
+  ("hash", "stringHash.Merge", "PutAll"),
+  ("hash", "stringHash.PutAll", "Put"),
+  -- the context completing parsed types / type sets / registered resolvables before anybody holds them
+  ("internal", "pxContext.ParseType", "Resolve"),
+  ("internal", "resolveResolvables", "Resolve"),
+  ("internal", "resolveTypeSet", "Constructor"),
+  ("internal", "resolveTypes", "Constructor"),
+  ("internal", "resolveTypes", "Resolve"),
+  -- a read (InitType.EachSignature completes its constructor list on first use)
+  ("internal", "describeInitType", "EachSignature"),
+  -- the file loader resolving what it has just parsed
+  ("loader", "fileBasedLoader.find", "Resolve"),
+  -- the DEserializer building a new type / object (allocate, then InitFromHash / Resolve)
+  ("serialization", "dsContext.convert", "Resolve"),
+  ("serialization", "dsContext.pcoreTypeHashToValue", "InitFromHash")]
+
+def mutatorCallsSafeB (names : List String) (calls : List (String × String × String)) : Bool :=
+  -- the two mutators of a DATA value are known by name, so that the list cannot silently lose them
+  names.contains "Put" && names.contains "PutAll" && calls.all fun c => reviewedMutatorCalls.contains c
+
+def MutatorCallsSafe (names : List String) (calls : List (String × String × String)) : Prop :=
+  mutatorCallsSafeB names calls = true
+
+instance (names : List String) (calls : List (String × String × String)) : Decidable (MutatorCallsSafe names calls) := by
+  unfold MutatorCallsSafe; infer_instance
 
 end Pcore.Immut
